@@ -11,9 +11,6 @@ pub mod trace;
 pub mod transport;
 pub mod wiretext;
 pub mod world;
-<<<<<<< HEAD
 pub mod rtcworld;
 pub mod rtcgens;
-=======
 pub mod typed;
->>>>>>> agent-base
